@@ -17,7 +17,7 @@ ID = "C17"
 SHARDS = 32
 RULE = (
     "Hypothesis builds scripts with 1..3 @qlassf functions (generated programs with bool and non-bool returns, single- and "
-    "multi-statement bodies, names in random alphabetical order) and an invocation: py2bexp with form in {none, anf, cnf, dnf, nnf} x "
+    "multi-statement bodies, names in random alphabetical order; defined with the decorator, from a source string bound to a different module-level name, or through an alias) and an invocation: py2bexp with form in {none, anf, cnf, dnf, nnf} x "
     "format {sympy, dimacs} x entry point {a name, none for a single function} x output {stdout, file} x input {stdin, file}, or py2qasm "
     "with version {2.0, 3.0}; main() is run in-process (2% also as a subprocess). Oracle: the printed expression is parsed by an own reader, "
     "its names must be argument bits of the selected function and its truth table (all 2^n assignments) must equal the conjunction of the "
@@ -50,9 +50,15 @@ def cfg():
 def case(draw):
     nf = draw(st.sampled_from([1, 1, 2, 3]))
     names = draw(st.permutations(NAMES))[:nf]
-    funcs = [{"name": nm, "prog": draw(gen_prog.program(cfg(), name=nm))} for nm in names]
+    funcs = []
+    for nm in names:
+        style = draw(st.sampled_from(["decorated", "decorated", "decorated", "string", "alias"]))
+        # "string": NAME = qlassf("def inner_NAME ...");  "alias": @qlassf def orig_NAME ... ; NAME = orig_NAME
+        defname = {"decorated": nm, "string": "inner_" + nm, "alias": "orig_" + nm}[style]
+        funcs.append({"name": nm, "style": style, "prog": draw(gen_prog.program(cfg(), name=defname))})
     tool = draw(st.sampled_from(["py2bexp", "py2bexp", "py2bexp", "py2qasm"]))
-    entry = draw(st.sampled_from(names)) if (nf > 1 or draw(st.booleans())) else None
+    plain = all(f["style"] == "decorated" for f in funcs)
+    entry = draw(st.sampled_from(names)) if (nf > 1 or not plain or draw(st.booleans())) else None
     c = {
         "funcs": funcs,
         "tool": tool,
@@ -82,7 +88,13 @@ def script_of(case):
     for f in case["funcs"]:
         src = gen_prog.render_lib(f["prog"])
         srcs[f["name"]] = src
-        parts.append("@qlassf\n" + src + "\n")
+        style = f.get("style", "decorated")
+        if style == "string":
+            parts.append(f"{f['name']} = qlassf({src!r})\n\n")
+        elif style == "alias":
+            parts.append("@qlassf\n" + src + "\n" + f"{f['name']} = {f['prog']['name']}\n\n")
+        else:
+            parts.append("@qlassf\n" + src + "\n")
     return "".join(parts), srcs
 
 
